@@ -174,6 +174,17 @@ def build_tokens(rng, sk, fk, genesis: bytes, parents: list[int], mix: list[str]
         elif kind == "foreign-tree":   # a token of the other key's own tree
             fgen = sha3(fk.pub().key_to_bin())
             t = mk_token(fk, fgen, b"ftree%d" % rng.randrange(1 << 30), label=kind, good=False)
+        elif kind in ("sig-extended", "sig-zero-padded", "sig-truncated"):
+            # a copy of a genuine token whose signature was re-encoded without the private key: trailing bytes, the two
+            # halves (r, s of ECDSA) each padded with a leading zero byte, a byte cut off.  Another hash, same pointers.
+            sg = bytes.fromhex(base["sig"])
+            if kind == "sig-extended":
+                sg2 = sg + bytes(rng.randrange(256) for _ in range(rng.choice([1, 1, 2, 16])))
+            elif kind == "sig-zero-padded":
+                sg2 = b"\x00" + sg[:len(sg) // 2] + b"\x00" + sg[len(sg) // 2:]
+            else:
+                sg2 = sg[:-1]
+            t = dict(base, sig=sg2.hex(), good=False, label=kind)
         elif kind == "signed-non-token":
             # something ELSE the key signed whose plaintext starts with a 32-byte pointer - the Metadata of a credential
             # is `token_pointer + JSON`, public in every disclosure - cut as Token(prev=pointer, content_hash=JSON)
@@ -337,11 +348,13 @@ def make_scenario(rng, size_class: str | None = None) -> dict:
     shape = rng.choice(["chain", "star", "binary", "comb", "tworoots", "wide", "random", "random"])
     parents = parents_for(rng, n, shape)
     kinds = ["forged-sig", "forged-chash", "forged-prev", "foreign", "foreign-tree", "dangling", "dangling-child",
-             "resplit", "resplit", "signed-non-token", "signed-non-token"]
+             "resplit", "resplit", "signed-non-token", "signed-non-token", "sig-extended", "sig-zero-padded",
+             "sig-truncated"]
     nmix = rng.choice([0, 0, 1, 2, 3, 5]) if n < 50 else rng.choice([0, 1])
     mix = [rng.choice(kinds) for _ in range(nmix)]
     if keytype == "very-low" and n < 50:     # ECDSA: two valid signatures of one pointer pair exist
         mix += ["resigned", "resigned-child"] + (["resigned"] if rng.random() < 0.5 else [])
+        mix += ["sig-zero-padded", rng.choice(["sig-extended", "sig-zero-padded", "sig-truncated"])]
     toks = build_tokens(rng, sk, fk, genesis, parents, mix)
     order = rng.choice(["inorder", "reversed", "random", "random", "leaves-first", "siblings-then-parent"])
     arr = arrival(rng, toks, parents, order)
@@ -512,8 +525,8 @@ class Run:
         from ipv8.attestation.tokentree.token import Token
         t = self.toks[i]
         prev, chash, sig = (bytes.fromhex(t[k]) for k in ("prev", "chash", "sig"))
-        if form == "pub" and not wellformed(t):      # the wire format cannot carry it: build it through the constructor
-            form = "hash"
+        if form in ("pub", "fullbad") and (not wellformed(t) or len(sig) != self.siglen):
+            form = "hash"      # the wire format cannot carry it: build it through the constructor
         if form == "pub":
             return Token.unserialize(prev + chash + sig, self.pub)
         if form == "full":
@@ -1938,6 +1951,7 @@ REQUIRED = [
     "offered:signed-non-token", "init:both:refused", "init:neither:refused", "init:bothgood:refused",
     "persist:restart", "persist:substantiate:dangling-part", "persist:credential", "persist:waiting-at-restart",
     "persist:restart:very-low", "persist:restart:curve25519",
+    "offered:sig-extended", "offered:sig-zero-padded", "offered:sig-truncated",
 ]
 
 
@@ -1991,8 +2005,21 @@ def run_tour(ctx: Ctx, use_model: bool):
                          ["verify", 0, 1000]], loaded=True)
     s6 = scen([], [["add", -1, b"tour-own".hex(), False], ["add", -1, b"tour-own".hex(), False],
                    ["add", 0, b"tour-own2".hex(), True], ["reload"]], own=True)
+    vsk = load_key(VERY_LOW_KEYS[0])
+    vg = sha3(vsk.pub().key_to_bin())
+    va = mk_token(vsk, vg, b"tour-va")
+    vb = mk_token(vsk, tk_hid(va), b"tour-vb")
+    vsig = bytes.fromhex(vb["sig"])
+    vpad = dict(vb, sig=(b"\x00" + vsig[:len(vsig) // 2] + b"\x00" + vsig[len(vsig) // 2:]).hex(), good=False,
+                label="sig-zero-padded")
+    vext = dict(va, sig=(bytes.fromhex(va["sig"]) + b"\x01").hex(), good=False, label="sig-extended")
+    vtr = dict(va, sig=va["sig"][:-2], good=False, label="sig-truncated")
+    s7 = dict(scen([va, vb, vpad, vext, vtr],
+                   [[G, 0, "pub"], [G, 2, "hash"], [G, 1, "pub"], [G, 3, "hash"], [G, 4, "hash"], [G, 2, "hash"],
+                    ["verify", 2, 1000], ["path", 2, 1000], ["verify", 3, 1000], ["ser"], ["reload"]]),
+              key=VERY_LOW_KEYS[0], fkey=VERY_LOW_KEYS[1], keytype="very-low")
     runs = []
-    for sc in (s1, s2, s3, s4, s5, s6):
+    for sc in (s1, s2, s3, s4, s5, s6, s7):
         r = Run(ctx, sc, use_model)
         r.run()
         if not sc.get("loaded") and not sc.get("own"):
